@@ -1,5 +1,6 @@
 import SuitVerif.IHexWrite
 import SuitVerif.IHexImage
+import SuitVerif.IHexCanon
 import SuitVerif.Props.C05
 /-! The text layer of a hex file: one line per record - a colon, upper-case hexadecimal, a line break.  The verifier's reader
 `IHex.read` on the text the writer model produces is the record-level reader on the records, hence gives back the block
@@ -98,5 +99,10 @@ theorem read_writeImageText (c : List (Nat × Bytes)) (hsep : Separated c) (hb :
     read (writeImageText c) = some c := by
   unfold writeImageText
   rw [read_textOf, readRecs_writeImageRecs c hsep hb]
+
+/-- **the reader's answers are fixed points**: whatever image the strict reader returns for a file (any file), written by the writer model and
+read again, is that same image - the image is canonical (`read_sep`), so the read-back theorem applies to it -/
+theorem read_stable (text : String) (c : Image) (h : read text = some c) (hb : ∀ s ∈ c, s.1 + s.2.length ≤ 2 ^ 32) :
+    read (writeImageText c) = some c := read_writeImageText c (read_sep text c h) hb
 
 end SuitVerif.IHex
